@@ -97,6 +97,60 @@ def count_on_paths(f, pred):
     return c.exits
 
 
+def strip_tpl(n):
+    prev = None
+    while prev != n:
+        prev = n
+        n = re.sub(r'<[^<>]*>', '', n)
+    return n
+
+
+def quantity(fx, f, e, depth=0):
+    """canonical name of the quantity an expression samples: 'size(Class::path)' or 'field(Class::name)'; None if not understood"""
+    e = see_through(e)
+    if not isinstance(e, dict) or depth > 4:
+        return None
+    cls = strip_tpl(f.get('class') or '')
+    k = e.get('k')
+    if k == 'cast' or (k in ('new', 'init') and len(e.get('a') or e.get('e') or []) == 1):
+        return quantity(fx, f, e.get('e') if k == 'cast' else (e.get('a') or e.get('e'))[0], depth)
+    if k == 'call' and mname(e) in ('size', 'size_') and e.get('recv') is not None:
+        p = path_of(e['recv'])
+        if p and p.startswith('this.'):
+            return 'size(%s::%s)' % (cls, p[5:])
+        return None
+    if k == 'call' and e.get('id') in fx.F and not e.get('a'):
+        g = fx.F[e['id']]
+        rets = [x for x in walk(g['body']) if x.get('k') == 'ret']
+        if len(rets) == 1 and rets[0].get('e') is not None:
+            return quantity(fx, g, rets[0]['e'], depth + 1)
+        return None
+    if k == 'mem':
+        b = see_through(e.get('b'))
+        if isinstance(b, dict) and b.get('k') == 'this':
+            return 'field(%s::%s)' % (cls, e['n'])
+        # a field of another object: where does the enclosing class assign it from?
+        srcs = set()
+        for g in fx.F.values():
+            if strip_tpl(g.get('class') or '') != cls:
+                continue
+            for n in fwalk(g):
+                aa = as_assign(n)
+                if aa and isinstance(see_through(aa[0]), dict) and see_through(aa[0]).get('k') == 'mem' and see_through(aa[0]).get('n') == e['n']:
+                    rv = see_through(aa[1])
+                    if isinstance(rv, dict) and rv.get('k') == 'lit':
+                        continue        # reset to a constant
+                    srcs.add(quantity(fx, g, aa[1], depth + 1))
+        if len(srcs) == 1:
+            return srcs.pop()
+        return None
+    if k == 'ref' and e.get('d') == 'local':
+        for n in fwalk(f):
+            if n.get('k') == 'decl' and n['n'] == e['n'] and n.get('init') is not None:
+                return quantity(fx, f, n['init'], depth + 1)
+    return None
+
+
 def guard_predicates(f):
     """set of (callee short name or compared constant, polarity) for every `if (...) continue;` in a function"""
     g = set()
@@ -221,6 +275,68 @@ def run(src, tier, seed):
             res.ok(r, '%s pops %s on the pop path' % (short, own))
         else:
             res.bad(r, 'own-pop-missing:%s' % short, fx.loc(impl), '%s never pops its own stack %s when backtrack points are popped' % (short, own))
+
+    # ---- R1b the marker stored at a backtrack point is compared with the quantity it was sampled from
+    r = res.rule('marker-quantity-agreement', 'the value each solver pushes on its own backtrack stack is sampled from the same quantity (container size / counter) '
+                 'that the pop path later compares the popped marker with', floor=4)
+    for cls in ('opensmt::Egraph', 'opensmt::LASolver', 'opensmt::ArraySolver', 'opensmt::STPSolver<opensmt::SafeInt>'):
+        own, _pm = OWN_STACK[cls]
+        short = cls.split('::', 1)[1]
+        pf = methods_of(fx, cls, 'pushBacktrackPoint')[0]
+        pushes = [n for n in fwalk(pf) if n.get('k') == 'call' and mname(n) in ('push', 'push_back') and recv_path(n) == 'this.' + own and n.get('a')]
+        if not pushes:
+            raise AnalysisBroken('%s::pushBacktrackPoint: push on %s not found' % (short, own))
+        q_push = quantity(fx, pf, pushes[0]['a'][0])
+        roots = methods_of(fx, cls, 'popBacktrackPoint') + methods_of(fx, cls, 'popBacktrackPoints')
+        q_use = set()
+        seen_f = set()
+
+        def marker_read(e):
+            e = see_through(e)
+            return isinstance(e, dict) and e.get('k') == 'call' and (mname(e) in ('last', 'back', 'top') or e.get('op') == '[]') and recv_path(e) == 'this.' + own
+
+        def scan(f, marker_params, depth):
+            key = (f['id'], tuple(sorted(marker_params)))
+            if key in seen_f or depth > 3:
+                return
+            seen_f.add(key)
+            markers = set(marker_params)
+            for n in fwalk(f):
+                if n.get('k') == 'decl' and n.get('init') is not None and marker_read(n['init']):
+                    markers.add(n['n'])
+
+            def is_marker(e):
+                e = see_through(e)
+                return marker_read(e) or (isinstance(e, dict) and e.get('k') == 'ref' and e['n'] in markers)
+            for n in fwalk(f):
+                l = rr = None
+                if n.get('k') == 'bin' and n.get('op') in ('<', '<=', '>', '>=', '==', '!=', '-'):
+                    l, rr = n['l'], n['r']
+                elif n.get('k') == 'call' and n.get('op') in ('<', '<=', '>', '>=', '==', '!=', '-') and n.get('recv') is not None and len(n.get('a', [])) == 1:
+                    l, rr = n['recv'], n['a'][0]
+                if l is not None:
+                    for a, b in ((l, rr), (rr, l)):
+                        if is_marker(a) and not is_marker(b):
+                            q_use.add(quantity(fx, f, b))
+                if n.get('k') == 'call' and n.get('id') in fx.F and not n.get('as'):
+                    callee_f = fx.F[n['id']]
+                    mp = [callee_f['params'][i]['n'] for i, a in enumerate(n.get('a', [])) if i < len(callee_f['params']) and is_marker(a)]
+                    rv = see_through(n['recv']) if n.get('recv') is not None else None
+                    on_this = isinstance(rv, dict) and (rv.get('k') == 'this' or (rv.get('k') == 'mem' and isinstance(see_through(rv.get('b')), dict) and see_through(rv['b']).get('k') == 'this'))
+                    if mp or (on_this and callee_f.get('class') == cls):
+                        scan(callee_f, mp, depth + 1)
+        for f0 in roots:
+            scan(f0, [], 0)
+        q_use.discard(None)
+        if not q_use:
+            raise AnalysisBroken('%s: no comparison of the popped %s marker found on the pop path' % (short, own))
+        if q_push is None:
+            raise AnalysisBroken('%s::pushBacktrackPoint: pushed value not understood' % short)
+        if q_use == {q_push}:
+            res.ok(r, '%s: marker sampled from and compared with %s' % (short, q_push))
+        else:
+            res.bad(r, 'marker-mismatch:%s' % short, fx.loc(pf, pushes[0]['ln']), '%s stores %s at a backtrack point, but the pop path compares the marker with %s: after some histories the two '
+                    'differ and a pop retracts more or less than the popped points (still-asserted literals are forgotten)' % (short, q_push, sorted(q_use)))
 
     # ---- R2 filter agreement between assertLits and backtrack; push before the isInformed filter
     r = res.rule('assert-backtrack-filters', 'THandler::assertLits pushes backtrack points for exactly the trail entries THandler::backtrack counts; '
